@@ -140,3 +140,97 @@ func (v *Verifier) ProveLemma(name string, so *SolveOpts) *UnitResult {
 	res.CanaryOK = 1
 	return res
 }
+
+// ProveFoldLemma proves, by induction on the count parameter, the extensionality statement that
+// `specfold f p n` turns into an axiom: for all p, q, n and heaps H1, H2 of p's elements, if
+// H1[p][k] == H2[q][k] for all 0 <= k < n then f(p, .., n) over H1 equals f(q, .., n) over H2.
+// One query: skolem constants, the hypothesis, the induction hypothesis at n-1 (only for n > 0),
+// the definition of f (define-fun-rec, unfolded by the solver), goal at n.
+func (v *Verifier) ProveFoldLemma(name string, cf *ContractFile, fm FloatMode, so *SolveOpts) *UnitResult {
+	start := time.Now()
+	key := "lemma:fold:" + name
+	if fm != FloatIEEE {
+		key += fmt.Sprintf("@floats%d", int(fm))
+	}
+	res := &UnitResult{Key: key}
+	u := &Unit{V: v, W: NewWorld(fm), Obls: map[string]*Obligation{}, siteNames: map[string]string{}, kindCount: map[string]int{},
+		Inlined: map[string]bool{}, Assumed: map[string]bool{}, Uncontracted: map[string]bool{}, UsedContracts: map[string]bool{},
+		closures: map[string]*closureVal{}, specDefs: map[string]*specDef{}, heapElemTypes: map[string]types.Type{}, globalInit: map[*ssa.Global]*Term{},
+		ParamVals: map[string]Value{}, NoFoldAxioms: true}
+	res.Unit = u
+	fail := func(msg string) *UnitResult {
+		res.Refused = msg
+		res.Obligations = []*Obligation{{Name: key, Kind: "lemma", Desc: msg, Queries: []*Query{{Goal: False, Result: "unknown", Backend: "generator"}}}}
+		return res
+	}
+	sf := cf.SpecFuncs[name]
+	if sf == nil || sf.FoldSlice == "" {
+		return fail("STALE-CONTRACT: fold spec function not found")
+	}
+	u.Pkg = v.SSAPkgs[cf.PkgPath]
+	var out *UnitResult
+	func() {
+		defer func() {
+			if r := recover(); r != nil {
+				if ue, ok := r.(unsupportedErr); ok {
+					out = fail(string(ue))
+					return
+				}
+				panic(r)
+			}
+		}()
+		s := &State{Heaps: map[string]*Term{}, Globals: map[*ssa.Global]*Term{}}
+		u.W.Declare("alloc0", "(declare-const alloc0 Int)")
+		s.Alloc = Leaf("alloc0", "Int")
+		s.Entry = &snapshot{Heaps: map[string]*Term{}, Alloc: s.Alloc}
+		env := &SpecEnv{u: u, s: s, names: map[string]Value{}, cf: cf, pkg: u.Pkg.Pkg}
+		d := u.defineSpecFunc(env, sf)
+		// rebuild the parameter list the way defineSpecFunc does
+		var params []string
+		for i, p := range sf.Params {
+			params = append(params, fmt.Sprintf("(a_%s %s)", p.Name, u.W.SortOf(d.paramTypes[i])))
+		}
+		for _, k := range d.heapKeys {
+			params = append(params, fmt.Sprintf("(h_%s %s)", sanitize(k), u.heapSort(k, u.W.SortOf(d.heapElem[k]))))
+		}
+		fp := u.foldPartsOf(sf, d, params)
+		if fp == nil {
+			panic(unsupportedErr("specfold " + name + ": bad parameters"))
+		}
+		a := make([]*Term, len(fp.names))
+		b := make([]*Term, len(fp.names))
+		for i := range fp.names {
+			a[i] = u.fresh(s, "fl_"+fp.names[i], fp.sorts[i])
+			b[i] = a[i]
+			if i == fp.iSlice || i == fp.iHeap {
+				b[i] = u.fresh(s, "fl2_"+fp.names[i], fp.sorts[i])
+			}
+		}
+		w := u.W
+		agree := func(n *Term) *Term {
+			k := Leaf("k!f", "Int")
+			lhs := Select(Select(a[fp.iHeap], w.SRef(a[fp.iSlice])), w.At(w.SOff(a[fp.iSlice]), k))
+			rhs := Select(Select(b[fp.iHeap], w.SRef(b[fp.iSlice])), w.At(w.SOff(b[fp.iSlice]), k))
+			return Forall([]*Term{k}, Implies(And(Le(IntLit(0), k), Lt(k, n)), Eq(lhs, rhs)), lhs)
+		}
+		appAt := func(args []*Term, n *Term) *Term {
+			c := append([]*Term(nil), args...)
+			c[fp.iN] = n
+			return App(d.smtName, d.resSort, c...)
+		}
+		n := a[fp.iN]
+		s.assume(agree(n))
+		nm1 := Sub(n, IntLit(1))
+		s.assume(Implies(Gt(n, IntLit(0)), Implies(agree(nm1), Eq(appAt(a, nm1), appAt(b, nm1)))))
+		u.oblige(s, key, "lemma", 0, "extensionality of "+name+" over the first "+sf.FoldN+" elements of "+sf.FoldSlice+" (induction on "+sf.FoldN+")", Eq(appAt(a, n), appAt(b, n)))
+	}()
+	if out != nil {
+		return out
+	}
+	obls := u.Obligations()
+	SolveAll(obls, u.W.Prelude(), so)
+	res.Obligations = obls
+	res.Seconds = time.Since(start).Seconds()
+	res.CanaryOK = 1
+	return res
+}
